@@ -1,0 +1,61 @@
+//go:build verif
+
+// Read-only observation hooks for the verification harness (/verif). Add-only; compiled only with
+// `-tags verif`.
+package mempool
+
+import (
+	"github.com/ava-labs/avalanchego/ids"
+
+	"github.com/ava-labs/hypersdk/codec"
+)
+
+const verifWalkLimit = 1 << 16
+
+// VerifQueue returns the queue content front-to-back, back-to-front and the list's size field.
+func (m *Mempool[T]) VerifQueue() (fwd []T, bwd []T, size int) {
+	m.mu.RLock()
+	defer m.mu.RUnlock()
+
+	for e := m.queue.First(); e != nil && len(fwd) < verifWalkLimit; e = e.Next() {
+		fwd = append(fwd, e.Value())
+	}
+	for e := m.queue.Last(); e != nil && len(bwd) < verifWalkLimit; e = e.Prev() {
+		bwd = append(bwd, e.Value())
+	}
+	return fwd, bwd, m.queue.Size()
+}
+
+// VerifOwned returns the owned counter of [sponsor] (0 if absent).
+func (m *Mempool[T]) VerifOwned(sponsor codec.Address) int {
+	m.mu.RLock()
+	defer m.mu.RUnlock()
+
+	return m.owned[sponsor]
+}
+
+// VerifPeekMin returns the item at the root of the expiry heap.
+func (m *Mempool[T]) VerifPeekMin() (T, bool) {
+	m.mu.RLock()
+	defer m.mu.RUnlock()
+
+	el, ok := m.eh.PeekMin()
+	if !ok {
+		return *new(T), false
+	}
+	return el.Value(), true
+}
+
+// VerifStreamState returns whether streamedItems is non-nil, its content (unordered), the prefetched
+// next stream and the fetched flag.
+func (m *Mempool[T]) VerifStreamState() (active bool, streamed []ids.ID, next []T, fetched bool) {
+	m.mu.RLock()
+	defer m.mu.RUnlock()
+
+	if m.streamedItems != nil {
+		active = true
+		streamed = m.streamedItems.List()
+	}
+	next = append(next, m.nextStream...)
+	return active, streamed, next, m.nextStreamFetched
+}
